@@ -25,13 +25,14 @@ FINISH = dict(level="model_checking",
               rule="a case = one TLC-generated history of encoder calls replayed on real encoder objects in one mode (argument container x plain / probed / hostile), or one spelling of the float table through every entry point of NumericEncoder; distinct = distinct (kind, alphabet, constructor form, history, mode) / spellings")
 
 ACTIONS = ["IsFit", "Encode", "Encodes", "FitEncodes", "Fit", "Pickle", "Finish"]
+ACTION_OF = dict(is_fit="IsFit", encode="Encode", encodes="Encodes", fit_encodes="FitEncodes", fit="Fit", pickle="Pickle")
 INVARIANTS = ["FitReturnsFit", "LikeFresh", "LevelOrder", "Policy", "Injective", "Pointwise", "FitThenEncodes", "Total", "PickleKeeps", "FloatFacts"]
 INV_BLOCK = "".join("INVARIANT %s\n" % i for i in INVARIANTS)
-GUARDS = [("fit_in_place", "fit also fits the receiver", "onehot", "abc", {"Immutable", "FitReturnsFit", "LikeFresh"}),
-          ("sorted_levels", "levels sorted instead of first-seen", "factor", "abc", {"LevelOrder", "LikeFresh"}),
-          ("fit_accumulates", "a second fit keeps the levels of the first", "onehot", "abc", {"LikeFresh", "LevelOrder"}),
-          ("encodes_skips", "encodes drops unknown values", "onehot", "abc", {"Pointwise", "FitThenEncodes"}),
-          ("inner_blanks", "blanks removed everywhere in a number", "numeric", "text", {"FloatFacts"})]
+GUARDS = [("fit_in_place", "fit also fits the receiver", "OneHot", {"Immutable", "LikeFresh"}),
+          ("sorted_levels", "levels sorted instead of first-seen", "Factor", {"LevelOrder", "LikeFresh"}),
+          ("fit_accumulates", "a second fit keeps the levels of the first", "OneHot", {"LikeFresh", "LevelOrder"}),
+          ("encodes_skips", "encodes drops unknown values", "Categ", {"Pointwise", "FitThenEncodes"}),
+          ("inner_blanks", "blanks removed everywhere in a number", "Numeric", {"FloatFacts"})]
 NEEDFIT = ("onehot", "factor", "categorical", "missing_onehot")
 JUNK = "\x00junk"
 
@@ -45,13 +46,14 @@ def toval(x):
     if t == "none": return None
     if t == "d": return float(Fraction(v[0]) * Fraction(10) ** v[1])
     if t == "l": return [1]
+    if t == "fnan": return float("nan")
     raise AssertionError(x)
 
 
 def show(x):
     if isinstance(x, dict) and "t" in x:
         t, v = x["t"], x["v"]
-        if t in ("s", "i", "b", "none", "d", "l"): return repr(toval(x))
+        if t in ("s", "i", "b", "none", "d", "l", "fnan"): return repr(toval(x))
         if t == "seq": return "[%s]" % ", ".join(show(e) for e in v)
         if t == "vec": return repr(tuple(v))
         if t == "num": return "float(%s%de%d)" % ("-" if v[0] else "", v[1], v[2])
@@ -73,7 +75,7 @@ def cmp(got, r, Categorical, deep=False):
     if t == "none": return None if got is None else "value"
     if t == "d": return None if type(got) is float and got == toval(r) else "value"
     if t == "l": return None if type(got) is list and got == [1] else "value"
-    if t == "nan": return None if type(got) is float and got != got else ("type" if type(got) is not float else "value")
+    if t in ("nan", "fnan"): return None if type(got) is float and got != got else ("type" if type(got) is not float else "value")
     if t == "inf": return None if type(got) is float and math.isinf(got) and (got < 0) == bool(v) else ("type" if type(got) is not float else "value")
     if t == "num":
         if type(got) is not float: return "type"
@@ -250,37 +252,33 @@ def modes_for(run, idx):
 
 # ------------------------------------------------------------------ the check
 def configs(ctx):
+    """the TLC runs: ka = a set of <<kind, alphabet>> pairs named in MC_Encoders.tla"""
     q = ctx.quick
     R = []
-    def add(kind, alpha, size, calls, objs, modes="all", design=False, split=False):
+    def add(ka, size, calls, objs, modes="rot", design=False, split=False):
         for first in (("is_fit", "encode", "encodes", "fit_encodes", "fit", "pickle") if split else ("any",)):
-            R.append(dict(name="%s-%s-%s%d-o%d%s" % (kind, alpha, size, calls, objs, "" if first == "any" else "-" + first), kind=kind, alpha=alpha, size=size,
+            R.append(dict(name="%s-%s%d-o%d%s" % (ka, size, calls, objs, "" if first == "any" else "-" + first), ka=ka, size=size,
                           calls=calls, objs=objs, modes=modes, design=design, first=first, big=calls >= 4))
-    NF = (("onehot", "abc"), ("factor", "abc"), ("categorical", "abc"), ("missing_onehot", "onehot_missing"))
-    TX = ("identity", "string", "numeric", "missing", "missing_numeric", "missing_custom")
-    # design runs: every invariant + per-action coverage; medium alphabets, every constructor form, three objects, 2 calls
-    for kind, alpha in NF + (("onehot", "mixed"), ("factor", "ints"), ("categorical", "mixed")) + tuple((k, "text") for k in TX):
-        add(kind, alpha, "m", 2, 3, design=True)
-    for kind in TX: add(kind, "text", "l", 2, 2)                  # the large text alphabet (every input type), 2 calls
+    # design run: every kind, every invariant; medium alphabets, every constructor form, three objects, 2 calls
+    add("All", "m", 2, 3, modes="all", design=True)
+    add("TX", "l", 2, 2, modes="all")                      # the large text alphabet (every input type), 2 calls
     if q:
-        for kind, alpha in NF:
-            add(kind, alpha, "s", 4 if kind != "missing_onehot" else 3, 2, modes="rot")      # ALL histories of 4 calls, two objects
-            add(kind, alpha, "s", 3, 3, modes="rot")                                         # ... of 3 calls, three objects
-        for kind in TX: add(kind, "text", "s", 3, 2, modes="rot")
+        add("NF3", "s", 4, 2)                              # ALL histories of 4 calls on two objects, small alphabets
+        add("NF", "s", 3, 3)                               # ... of 3 calls on three objects (incl. MissingEncoder(OneHotEncoder()))
+        add("TX", "s", 3, 2)
     else:
-        for kind, alpha in NF:
-            add(kind, alpha, "s", 5, 2, modes="rot", split=True)                             # ALL histories of 5 calls, two objects
-            add(kind, alpha, "s", 4, 3, modes="rot")                                         # ... of 4 calls, three objects
-            add(kind, alpha, "m", 3, 3)                                                      # medium alphabet, every constructor form
-        for kind, alpha in (("onehot", "mixed"), ("factor", "ints"), ("categorical", "mixed")): add(kind, alpha, "m", 3, 3)
-        for kind in TX:
-            add(kind, "text", "s", 5 if kind in ("numeric", "missing_numeric") else 4, 2, modes="rot", split=kind in ("numeric", "missing_numeric"))
-            add(kind, "text", "m", 3, 2, modes="rot")
+        for ka in ("OneHot", "Factor", "Categ", "MissOH"):
+            add(ka, "s", 5, 2, split=True)                 # ALL histories of 5 calls on two objects
+            add(ka, "s", 4, 3)                             # ... of 4 calls on three objects
+        add("NF3", "m", 3, 3, design=True); add("NFX", "m", 3, 3, design=True); add("MissOH", "m", 3, 3, design=True)
+        add("TX", "s", 4, 2, split=True)
+        add("TXN", "s", 5, 2, split=True)
+        add("TX", "m", 3, 2, design=True)
     return R
 
 
 def sub_for(c, variant="ok", mode="hist", keep_inv=True):
-    sub = {'Kind = "onehot"': 'Kind = "%s"' % c["kind"], 'Alpha = "abc"': 'Alpha = "%s"' % c["alpha"], 'Size = "s"': 'Size = "%s"' % c["size"],
+    sub = {"KindAlphas <- OneHot": "KindAlphas <- %s" % c["ka"], 'Size = "s"': 'Size = "%s"' % c["size"],
            "MaxCalls = 3": "MaxCalls = %d" % c["calls"], "MaxObjs = 3": "MaxObjs = %d" % c["objs"]}
     if c.get("first", "any") != "any": sub['First = "any"'] = 'First = "%s"' % c["first"]
     if variant != "ok": sub['Variant = "ok"'] = 'Variant = "%s"' % variant
@@ -298,28 +296,28 @@ def run(ctx):
 
     # ---- 1. TLC: design runs, guards, generators, the float table ----
     jobs = []
-    for c in C: jobs.append((c["name"], sub_for(c, keep_inv=c["design"]), dict(coverage=c["design"], workers=2 if c["design"] else 4)))
-    for g, _, kind, alpha, _ in GUARDS:
-        gc = dict(kind=kind, alpha=alpha, size="q" if g == "inner_blanks" else "m", calls=3, objs=3)
+    for c in C: jobs.append((c["name"], sub_for(c, keep_inv=c["design"]), dict(workers=ctx.pick(6, 8) if (c["big"] or c["design"]) else 4)))
+    for g, _, ka, _ in GUARDS:
+        gc = dict(ka=ka, size="q" if g == "inner_blanks" else "m", calls=3, objs=3)
         jobs.append(("guard-" + g, sub_for(gc, variant=g, mode="float" if g == "inner_blanks" else "hist"), dict(workers=1)))
-    fc = dict(kind="numeric", alpha="text", size=ctx.pick("q", "t"), calls=1, objs=1)
+    fc = dict(ka="Numeric", size=ctx.pick("q", "t"), calls=1, objs=1)
     jobs.append(("float", sub_for(fc, mode="float"), dict(workers=4)))
     big = {c["name"] for c in C if c["big"]}
-    jobs.sort(key=lambda j: 0 if j[0] in big else 1)     # the long ones first (stable)
+    jobs.sort(key=lambda j: 0 if j[0] in big else 2 if j[0].startswith("guard-") else 1)     # the long ones first (stable)
 
     def tlc_job(job):
         name, sub, kw = job
         cfg = tracecheck._cfg("Encoders.cfg", sub, ctx.scratch, "enc_%s.cfg" % name)
-        return name, tlc.run("Encoders", cfg, ctx.scratch, timeout=3000, heap="6g", **kw)
+        return name, tlc.run("MC_Encoders", cfg, ctx.scratch, timeout=3000, heap="6g", **kw)
 
     byname = {c["name"]: c for c in C}
-    total = 0; nmodes = 0; nsig = {}
+    total = 0; nmodes = 0; nsig = {}; per_kind = {}
     sampled = set()
 
     def handle(name, r):
         nonlocal total, nmodes
         if name.startswith("guard-"):
-            g = name[6:]; expect = [x for x in GUARDS if x[0] == g][0][4]
+            g = name[6:]; expect = [x for x in GUARDS if x[0] == g][0][3]
             ctx.add_tlc("Encoders " + name, r)
             names = {v["name"] for v in r.violations}
             if not (names & expect):
@@ -334,14 +332,21 @@ def run(ctx):
             float_table(ctx, table, E, CobaException, rng)
             return
         c = byname[name]
-        ctx.add_tlc("Encoders " + name, r, required_actions=ACTIONS if c["design"] else ())
         for v in r.violations: ctx.violation("spec:%s" % (v["name"] or v["kind"]), "Encoders.tla (%s) itself violates %s" % (name, v["name"]), v["trace"][:60])
-        hists = [j for j in r.json if isinstance(j, dict) and "steps" in j and j.get("kind") == c["kind"]]
+        hists = [j for j in r.json if isinstance(j, dict) and "steps" in j]
         r.json = None; r.out = ""
         if len(hists) < 30: raise RuntimeError("Encoders %s produced only %d histories" % (name, len(hists)))
+        # per-action coverage = the calls that are actually replayed (TLC's -coverage costs 5x the run): an action of the spec that no
+        # history of the run takes makes the run vacuous
+        r.coverage = {a: [0, 0] for a in ACTIONS}
         seen = set()
         for h in hists:
-            if len(h["steps"]) != c["calls"] or h["alpha"] != c["alpha"]: raise RuntimeError("Encoders %s: unexpected history %r" % (name, h))
+            if len(h["steps"]) != c["calls"]: raise RuntimeError("Encoders %s: unexpected history %r" % (name, h))
+            h["kind"] = h["init"]["kind"]
+            for st in h["steps"]:
+                cv = r.coverage[ACTION_OF[st["a"]]]; cv[0] += 1; cv[1] += 1
+                per_kind.setdefault(h["kind"], collections.Counter())[st["a"]] += 1
+            r.coverage["Finish"][1] += 1
             key = json.dumps([h["init"], [(s["a"], s["o"], s["x"]) for s in h["steps"]]], sort_keys=True)
             if key in seen: continue
             seen.add(key)
@@ -350,13 +355,14 @@ def run(ctx):
                 ctx.case("%s#%d" % (name, len(seen)) if mi == 0 else None); nmodes += 1
                 try: replay(h, m, E, CobaException, Categorical)
                 except Bad as b:
-                    sig = "%s:%s" % (c["kind"], b.sig)
+                    sig = "%s:%s" % (h["kind"], b.sig)
                     nsig[sig] = nsig.get(sig, 0) + 1
                     if nsig[sig] > 4: ctx.violation(sig, "", None)          # counted; the first ones carry the text and the replay file
                     else: ctx.violation(sig, "%s   [%s; arguments as %s, %s]" % (b.what, text(h), m[0], m[1]), dict(run=name, mode=m, program=text(h), history=h))
             if name not in sampled and len(seen) == len(hists) // 2 + 1:
                 sampled.add(name); ctx.sample(dict(run=name, program=text(h), expected=[show(s["r"]) if s["r"]["t"] != "nil" else "new: is_fit=%d" % s["new"]["fit"] for s in h["steps"]]), limit=10)
         total += len(seen)
+        ctx.add_tlc("Encoders " + name, r, required_actions=ACTIONS if (c["first"] == "any" and c["calls"] >= 2) else ())
         ctx.extra.setdefault("histories", {})[name] = len(seen)
 
     # at most `window` TLC runs in flight or waiting to be replayed (their output is large)
@@ -371,10 +377,14 @@ def run(ctx):
             del r
     ctx.exhaustive = True
     ctx.traces += total
+    ctx.extra["calls_replayed_per_kind"] = {k: dict(v) for k, v in sorted(per_kind.items())}
+    for k, v in per_kind.items():
+        missing = [a for a in ACTION_OF if not v.get(a)]
+        if missing: raise RuntimeError("no history of kind %s takes %s" % (k, missing))
     ctx.extra["replays"] = nmodes
 
     # ---- 2. the binding is not vacuous: one corrupted expectation must be noticed ----
-    probe = dict(kind="onehot", alpha="abc", init=dict(err=0, given=0, vals=[]), obj1=dict(fit=0, probe=[dict(t="err", v="unfit")] * 2), vals=[dict(t="s", v=["a"]), dict(t="s", v=["c"])],
+    probe = dict(kind="onehot", init=dict(kind="onehot", alpha="abc", err=0, given=0, vals=[]), obj1=dict(fit=0, probe=[dict(t="err", v="unfit")] * 2), vals=[dict(t="s", v=["a"]), dict(t="s", v=["c"])],
                  steps=[dict(a="fit_encodes", o=1, x=[dict(t="s", v=["c"]), dict(t="s", v=["a"])], r=dict(t="seq", v=[dict(t="vec", v=[1, 0]), dict(t="vec", v=[1, 0])]), new=dict(t="nil", v=0))])
     try:
         replay(probe, ("list", "plain"), E, CobaException, Categorical)
